@@ -206,11 +206,12 @@ def run(ck):
     ck.require_fact("H1b.negative-hit-unexpired", fl, nonzero, E.m_cmp("<", E.m_mentions("squid_curtime"), E.m_is_mem("StoreEntry::expires")), True, "return <non-zero>",
                     why="(an expired negatively cached reply would be served without the staleness check)")
 
-    ck.rule("H2 clientReplyContext::processExpired: every return has passed FwdState::Start or processOnlyIfCachedMiss, or collapsedRevalidation == crSlave")
+    ck.rule("H2 clientReplyContext::processExpired: every return has passed FwdState::Start, processOnlyIfCachedMiss or processMiss (which forwards or answers with an error; used for looping requests), or collapsedRevalidation == crSlave")
     pe = facts.fn("clientReplyContext::processExpired")
     slave = E.M(lambda t: E.strip(t).get("op") == "==" and "clientReplyContext::collapsedRevalidation" in E.mentions(t) and "clientReplyContext::crSlave" in E.mentions(t), "collapsedRevalidation==crSlave")
     ck.require_any("H2.revalidation-contacts-origin", pe, ev_exit(), [("P", "FwdState::Start", ev_call("FwdState::Start")),
-                   ("P", "processOnlyIfCachedMiss", ev_call("clientReplyContext::processOnlyIfCachedMiss")), (slave, True)], "return",
+                   ("P", "processOnlyIfCachedMiss", ev_call("clientReplyContext::processOnlyIfCachedMiss")),
+                   ("P", "processMiss", ev_call("clientReplyContext::processMiss")), (slave, True)], "return",
                    why="(a stale hit would wait for a revalidation that nobody started)")
 
     ck.rule("H3 no-cache requests: clientInterpretRequestHeaders RESPONSE(request CC hasNoCache() -> flags.noCache=true or flags.nocacheHack=true); identifyStoreObject looks "
